@@ -467,6 +467,15 @@ func panicSite(stack string) string {
 			if k := indexStr(f, " +0x"); k >= 0 {
 				f = f[:k]
 			}
+			// drop the argument list (pointer values differ from run to run)
+			for k := len(fn) - 1; k >= 0; k-- {
+				if fn[k] == '(' {
+					if k > 0 && fn[k-1] != ')' || k == 0 {
+						fn = fn[:k]
+					}
+					break
+				}
+			}
 			return "panic at " + f + " in " + fn
 		}
 	}
